@@ -582,4 +582,11 @@ def r07_6b(ctx, config="native"):
         ctx.ob("R07.6b", "end-mask", False, f.loc(), f"digit classifier not recognised: {ex} (fail closed)")
 
 
-RULES = [("R07.1", r07_1), ("R07.3", r07_3), ("R07.4", r07_4), ("R07.5", r07_5), ("R07.6", r07_6), ("R07.6b", r07_6b), ("R07.7", r07_7), ("R07.8", r07_8)]
+def r07_s(ctx):
+    """shifts, table indices and unsigned differences of the conversion stay in range (interval analysis, shared with C01):
+    a wrapped shift or an out-of-range table index yields a wrong float in release builds"""
+    from . import c01
+    ctx.include(c01.r01_13, "R07.S", ("sonic_number",), 15)
+
+
+RULES = [("R07.1", r07_1), ("R07.3", r07_3), ("R07.4", r07_4), ("R07.5", r07_5), ("R07.6", r07_6), ("R07.6b", r07_6b), ("R07.7", r07_7), ("R07.8", r07_8), ("R07.S", r07_s)]
